@@ -856,6 +856,37 @@ fn run_inner(sc: &J) -> Result<Option<String>, String> {
             }
             Ok(None)
         }
+        // C04: the metadata map of the header — every user key the writer accepted comes back from Reader::user_metadata() with
+        // its bytes (keys merely STARTING with "avro" are not reserved: only the "avro." namespace is); reserved keys are
+        // refused by the writer; a hand-built file with an unknown "avro.x" key and user keys split over two map blocks is read
+        "container_user_metadata" => {
+            let schema = Schema::parse_str("\"long\"").map_err(|e| e.to_string())?;
+            let keys: Vec<(&str, Vec<u8>)> = vec![("my.key", b"v1".to_vec()), ("avro_generator", b"gen".to_vec()), ("avrotools.version", vec![1, 2, 3]), ("avr", vec![]), ("AVRO.upper", b"u".to_vec()), ("x", vec![0xff; 300]), ("", b"empty-key".to_vec())];
+            let mut w = apache_avro::Writer::builder().schema(&schema).writer(Vec::new()).marker([3u8; 16]).build().map_err(|e| e.to_string())?;
+            for (k, v) in &keys { w.add_user_metadata(k.to_string(), v).map_err(|e| format!("add_user_metadata({k:?}): {e}"))?; }
+            if w.add_user_metadata("avro.custom".to_string(), b"x").is_ok() { return Ok(Some("the writer accepts a user key in the reserved avro. namespace".into())); }
+            w.append_value_ref(&Value::Long(5)).map_err(|e| e.to_string())?;
+            let file = w.into_inner().map_err(|e| e.to_string())?;
+            let rd = apache_avro::Reader::new(&file[..]).map_err(|e| e.to_string())?;
+            for (k, v) in &keys {
+                match rd.user_metadata().get(*k) { Some(got) if got == v => {}, other => return Ok(Some(format!("user metadata key {k:?} written with {} byte(s) reads back as {:?}", v.len(), other.map(|b| b.len())))) }
+            }
+            if rd.user_metadata().len() != keys.len() { return Ok(Some(format!("{} user keys written, {} read: {:?}", keys.len(), rd.user_metadata().len(), rd.user_metadata().keys().collect::<Vec<_>>()))); }
+            match rd.collect::<Result<Vec<Value>, _>>() { Ok(v) if v == vec![Value::Long(5)] => {}, other => return Ok(Some(format!("values read back as {other:?}"))) }
+            // hand-built header: magic, map in two blocks {avro.schema, avro.future} {avrotools.version, zeta}, end, marker
+            let enc_str = |t: &[u8]| -> Vec<u8> { let mut o = crate::refimpl::long(t.len() as i64); o.extend_from_slice(t); o };
+            let mut f = b"Obj\x01".to_vec();
+            f.extend(crate::refimpl::long(2)); f.extend(enc_str(b"avro.schema")); f.extend(enc_str(b"\"long\"")); f.extend(enc_str(b"avro.future")); f.extend(enc_str(b"?"));
+            f.extend(crate::refimpl::long(2)); f.extend(enc_str(b"avrotools.version")); f.extend(enc_str(b"1.12")); f.extend(enc_str(b"zeta")); f.extend(enc_str(b""));
+            f.extend(crate::refimpl::long(0)); f.extend_from_slice(&[8u8; 16]);
+            f.extend(crate::refimpl::long(1)); f.extend(crate::refimpl::long(1)); f.push(0x0a); f.extend_from_slice(&[8u8; 16]);
+            let rd = apache_avro::Reader::new(&f[..]).map_err(|e| format!("hand-built file: {e}"))?;
+            let um = rd.user_metadata().clone();
+            if um.get("avrotools.version").map(|v| &v[..]) != Some(&b"1.12"[..]) || um.get("zeta").map(|v| v.len()) != Some(0) || um.len() != 2 {
+                return Ok(Some(format!("hand-built file with user keys avrotools.version and zeta: user_metadata() = {:?}", um.keys().collect::<Vec<_>>())));
+            }
+            match rd.collect::<Result<Vec<Value>, _>>() { Ok(v) if v == vec![Value::Long(5)] => Ok(None), other => Ok(Some(format!("hand-built file: values read as {other:?}"))) }
+        }
         // C15/C04: every codec x files whose blocks shrink and grow (a later block's compressed bytes shorter than the previous
         // block's decompressed bytes, and the reverse) x compressible and incompressible payloads: what was written is read back
         "container_codec_blocks" => {
